@@ -12,6 +12,7 @@ the op line.  Same line protocol as `harness/c01k.cpp`, which calls the real ker
                                                  o3 = orientations of target, e1, e2 (r/c each)
   ktassign <set|plus|minus|times> <n1> <n2> <seed>   transposing blocked assignment
   kfoldrows <sum|max|min> <n1> <n2> <seed>       column-major fold_rows kernel
+  kmixed <what> <m> <n> <k> <seed>               expression mixing float / double / int value types
 Operand data are a fixed function of (seed, index), computed identically by the harness.
 -/
 import SharkVerif.Model.RemoraKernels
@@ -98,6 +99,26 @@ def step (toks : List String) : Option String :=
     -- `v(start+i) += g(storage[i])` on a target holding val(seed+1); nothing is folded when n2 = 0
     some (showVec ((List.range n1).map fun r =>
       val (seed + 1) r + (if n2 = 0 then 0 else foldRowsBlocked f id a n2 foldRowsBlock r)))
+  | ["kmixed", what, m, n, k, seed] => do
+    -- the denotation of a mixed value-type expression is the rational element-wise definition (the C++ computes in
+    -- std::common_type and converts on assignment; the data keep every intermediate exact in every type)
+    let m ← m.toNat?; let n ← n.toNat?; let k ← k.toNat?; let seed ← seed.toNat?
+    let vec (len s : Nat) : VExp Rat := .lit len (fun i => val s i)
+    let mat (a b s : Nat) : MExp Rat := .lit a b (fun i j => val s (i * b + j))
+    match what with
+    | "add_df" => some (showVec (VExp.add (vec n seed) (vec n (seed + 1))).toList)
+    | "mul_fi_to_d" => some (showVec (VExp.binary (vec n seed) (vec n (seed + 1)) (· * ·)).toList)
+    | "plus_i_d" => some (showVec (VExp.add (vec n seed) (vec n (seed + 1))).toList)
+    | "gemv_fi_to_d" => some (showVec (VExp.mvprod (mat m n seed) (vec n (seed + 1)) 1).toList)
+    | "gemm_fd_plus_d" =>
+      let e := MExp.add (mat m n (seed + 2)) (MExp.mmprod (mat m k seed) (mat k n (seed + 1)) 1)
+      some (showMat m n e.get)
+    | "outer_fi_minus_d" =>
+      let e := MExp.add (mat m n (seed + 2)) (MExp.scal (MExp.outer (vec m seed) (vec n (seed + 1))) (-1))
+      some (showMat m n e.get)
+    | "sum_f" | "sum_i" => some ("R=" ++ showRat (vec n seed).sum)
+    | "inner_fd" => some ("R=" ++ showRat (VExp.inner (vec n seed) (vec n (seed + 1))))
+    | _ => none
   | _ => none
 
 end C01Kern
